@@ -101,8 +101,27 @@ func TestC07_Fallback(t *testing.T) {
 			db = gen.Load(t, cmds)
 			q, qc = word, "filtered-lexical"
 		}
+		wide := false
+		if needle == "" && !longTail && filtered == "" && rapid.IntRange(0, 9).Draw(t, "wide-spelling") == 0 {
+			// a terse entry (a short alias, little or no description) asked for with one letter dropped and
+			// in letters whose other case forms take MORE bytes (k / U+212A, s / U+017F, a-ring / U+212B):
+			// the query is longer than the text that contains it, letter for letter
+			base := rapid.StringOfN(rapid.RuneFrom([]rune{'k', 's', 'k', 's', 'x', 'a', 'å'}), 3, 6, -1).Draw(t, "wide-base")
+			terse := database.Command{Command: base, Description: rapid.SampledFrom([]string{"", "", "k", "s x"}).Draw(t, "wide-desc")}
+			rs := []rune(base)
+			d := rapid.IntRange(0, len(rs)-1).Draw(t, "wide-drop")
+			rs = append(rs[:d:d], rs[d+1:]...)
+			for i, r := range rs {
+				if w, ok := map[rune]rune{'k': '\u212a', 's': '\u017f', 'å': '\u212b'}[r]; ok && rapid.IntRange(0, 3).Draw(t, "wide-here") != 0 {
+					rs[i] = w
+				}
+			}
+			cmds = append(cloneCmds(cmds), terse)
+			db = gen.Load(t, cmds)
+			q, qc, wide = string(rs), "wide-spelling", true
+		}
 		crowded := ""
-		if needle == "" && !longTail && filtered == "" && caseNo%150 == 75 {
+		if needle == "" && !longTail && filtered == "" && !wide && caseNo%150 == 75 {
 			// a big database (beyond any block size a matcher may work in) in which dozens to hundreds of
 			// entries match the query BETTER than the one entry the filter accepts, all of them rejected by
 			// that filter and sitting around it: the accepted entry must still come back
@@ -147,6 +166,10 @@ func TestC07_Fallback(t *testing.T) {
 			opt.AllPlatforms, opt.PipelineOnly, opt.Platforms, opt.NoCrossPlatform = true, false, nil, false
 		}
 		var labels0 []string
+		if wide {
+			opt.AllPlatforms, opt.PipelineOnly, opt.Platforms, opt.NoCrossPlatform, opt.FuzzyThreshold = true, false, nil, false, 0
+			labels0 = append(labels0, "query-longer-than-its-match")
+		}
 		if crowded != "" {
 			filtered = crowded // the same option settings as the small filtered construction
 			opt.Limit = rapid.SampledFrom([]int{1, 5, 5, 10, 50}).Draw(t, "crowd-limit")
